@@ -293,8 +293,18 @@ def load_real(world, root, rid, fresh_loader=True):
     import ZConfig
     import ZConfig.loader
     try:
-        if rid in world.files.values():
+        if rid in world.files.values() and sum(map(ord, rid)) % 3 == 0:
             sch = ZConfig.loadSchema(os.path.join(root, rid))
+        elif rid in world.files.values():
+            # one long-lived SchemaLoader per process (every scenario has resource names of its own, so what the
+            # loader remembers by URL never answers for another scenario): a document it refuses it refuses again
+            # when asked again - a failed load leaves nothing behind
+            ld = _PERSISTENT.setdefault("url-loader", ZConfig.loader.SchemaLoader())
+            try:
+                sch = ld.loadURL(os.path.join(root, rid))
+            except ZConfig.SchemaError:
+                sch = ld.loadURL(os.path.join(root, rid))
+                return sch, {"ok": True, "note": "refused first, accepted when the same loader was asked again"}
         elif fresh_loader is False or (sum(map(ord, rid)) % 2 == 0):
             ld = _PERSISTENT.setdefault("loader", ZConfig.loader.SchemaLoader())
             sch = ld.loadFile(io.StringIO(to_xml(world.docs[rid])))
